@@ -980,6 +980,30 @@ func (e *SpecEnv) callExpr(v *ast.CallExpr) Val {
 			a, b := e.eval(v.Args[0]).(SliceV), e.eval(v.Args[1]).(SliceV)
 			k := e.idxTerm(e.eval(v.Args[2]))
 			return Scalar{fmt.Sprintf("(and (= %s %s) (= %s %s))", a.Arr, b.Arr, a.Off, e.c.idxAdd(b.Off, k)), SBool, boolT}
+		case "samebacking":
+			// samebacking(s, t): slices s and t share one backing array (at any offsets), e.g. t is a re-slice of s
+			a, okA := e.eval(v.Args[0]).(SliceV)
+			b, okB := e.eval(v.Args[1]).(SliceV)
+			if !okA || !okB {
+				specFail("samebacking: both arguments must be slices")
+			}
+			return Scalar{fmt.Sprintf("(= %s %s)", a.Arr, b.Arr), SBool, boolT}
+		case "sameroot":
+			// sameroot(x, y): x and y live in the same allocation (e.g. a slice and a re-slice of it at any offset)
+			rootOf := func(a Val) string {
+				switch x := a.(type) {
+				case Scalar:
+					return x.T
+				case SliceV:
+					return x.Arr
+				case IfaceV:
+					return x.PRef
+				}
+				specFail("sameroot of %T", a)
+				return ""
+			}
+			ra, rb := rootOf(e.eval(v.Args[0])), rootOf(e.eval(v.Args[1]))
+			return Scalar{fmt.Sprintf("(= (rootid %s) (rootid %s))", ra, rb), SBool, boolT}
 		case "separate":
 			// separate(x, y): x and y (slices, pointers or interfaces holding pointers) live in different allocations, so
 			// nothing reachable by indexing/field selection from one overlaps the other
